@@ -21,7 +21,8 @@ EXPL = ("MPT/WMW/PROV/GUARD rules on uncompact(): the returned vector is mutated
 
 
 def input_iter(src):
-    """is the iterator source a front-to-back traversal of parameter 1 (optionally enumerate / copied)?"""
+    """is the iterator source a front-to-back traversal of parameter 1 (optionally enumerate / copied / zipped with a
+    second sequence)?  Returns (ok, views); a zip leaves ('zip', position of the input, the other iterator) in views."""
     t = peel(src)
     views = []
     while t[0] == "call" and t[2]:
@@ -29,9 +30,36 @@ def input_iter(src):
         if n.endswith("::into_iter") or n.endswith("::iter") or n.endswith("::enumerate") or n.endswith("::copied") or n.endswith("::cloned"):
             views.append(n.split("::")[-1])
             t = peel(t[2][0])
+        elif n.endswith("::zip") and len(t[2]) == 2:
+            a, b = peel(t[2][0]), peel(t[2][1])
+            oka, va = input_iter(a)
+            okb, vb = input_iter(b)
+            if oka and not any(isinstance(v, tuple) or v in ("rev", "enumerate") for v in va):
+                views.append(("zip", 0, b))
+                return True, views
+            if okb and not any(isinstance(v, tuple) or v in ("rev", "enumerate") for v in vb):
+                views.append(("zip", 1, a))
+                return True, views
+            return False, views
         else:
             return False, views
     return t == ("param", 1), views
+
+
+def iter_vec_key(t):
+    """place key of the local vector a plain forward iterator term walks, or None"""
+    for _ in range(12):
+        if t[0] == "call" and t[2] and t[1].split("::")[-1] in ("into_iter", "iter", "copied", "cloned", "deref", "as_slice"):
+            t = t[2][0]
+        elif t[0] == "ref" and t[2][0] != "deref":
+            return t[3]
+        elif t[0] == "ref":
+            t = t[2][1]
+        elif t[0] == "deref":
+            t = t[1]
+        else:
+            return None
+    return None
 
 
 def run(ctx):
@@ -76,8 +104,29 @@ def run(ctx):
     L = loops_with[0]
     item = L.item
     enum = "enumerate" in views
+    zips = [v for v in views if isinstance(v, tuple)]
     elem = ("field", item, 1) if enum else item
     idx = ("field", item, 0) if enum else None
+    if zips:
+        # for (cell, extra) in cells.iter().zip(aux.iter()): the input element is one component of the item, and the
+        # companion sequence must hold exactly one record per input element, in input order
+        _z, pos, other = zips[0]
+        elem = ("field", item, pos)
+        aux_key = iter_vec_key(other)
+        okz = False
+        if aux_key is not None:
+            rp = pushes_to(ft, aux_key)
+            rl = [l for l in lps if any(c.block in l.own for c in rp)]
+            okz = (len(rp) == 1 and len(rl) == 1 and rl[0].source is not None and input_iter(rl[0].source)[0]
+                   and not any(isinstance(v, tuple) for v in input_iter(rl[0].source)[1]) and every_iteration(ft, rl[0], rp[0].block)
+                   and not [c for c in mutators_of(ft, aux_key) if c not in rp])
+            if okz:
+                v = peel(rp[0].args[1])
+                it2 = rl[0].item
+                okz = (v[0] == "call" and v[1] == NUMCH and v[2][1] == ("param", 2) and peel(v[2][0])[0] == "call" and peel(v[2][0])[1] == GETRES
+                       and strip_site(peel(peel(v[2][0])[2][0])) == strip_site(peel(it2)))
+        run.inst("C09.U2", "companion-sequence-aligned", okz,
+                 "the sequence zipped with the input holds get_num_children(get_resolution(cells[k]), target) pushed once per input element, in input order", w)
     # every iteration appends exactly one of the alternatives
     blocks = {c.block for c in appends}
     covered = True
